@@ -293,6 +293,8 @@ pub fn dw_usize() -> usize { 11 }
 pub mod dwm { pub fn dw_u8_path() -> u8 { 13 } }
 '''
 
+PRELUDE_EXTRA = []   # other modules append Rust source for hp.rs here
+
 MAIN_TMPL = r'''
 mod hp;
 #[allow(unused_imports)]
@@ -372,7 +374,7 @@ class CorpusCrate:
                 f.write('[package]\nname = "%s_s%d"\nversion = "0.0.0"\nedition = "2021"\n\n[dependencies]\n%s\n%s\n' % (
                     self.name, s, dep, self.extra_deps))
             with open(os.path.join(d, "hp.rs"), "w") as f:
-                f.write(PRELUDE)
+                f.write(PRELUDE + "\n".join(PRELUDE_EXTRA))
             mods_src, arms, ranges = [], [], []
             line = MAIN_TMPL[:MAIN_TMPL.index("%(mods)s")].count("\n") + 1 + self.crate_attrs.count("\n") + (1 if self.crate_attrs else 0)
             for k in ks:
